@@ -52,6 +52,42 @@ def model_args(model, nargs: int) -> tuple:
     return tuple(vals)
 
 
+def show(tup) -> list:
+    return [hex(x) if isinstance(x, int) else ([hex(y) for y in x] if isinstance(x, list) else "0x" + bytes(x).hex()) for x in tup]
+
+
+def calldata_of(meta, tup) -> bytes:
+    if getattr(meta, "dyn_tuples", None):
+        return testgen.encode_abi(meta.sig, tup)
+    return reftest.encode_static(meta.sig, tup)
+
+
+def model_args_dyn(model, meta):
+    """Argument tuple of a counterexample for a test with uint256[] / bytes parameters (None: length left free)."""
+    alens, blens = meta.dyn_bounds
+    types = meta.sig[meta.sig.index("(") + 1 : -1].split(",")
+    vals = {}
+    for name, var in model.model.items():
+        m = re.match(r"^p_p(\d+)(?:\[(\d+)\])?_(uint256|length|bytes)_", name)
+        if m:
+            vals[(int(m.group(1)), m.group(2), m.group(3))] = var.value
+    out = []
+    for i, t in enumerate(types):
+        if t == "uint256":
+            out.append(vals.get((i, None, "uint256"), 0))
+            continue
+        n = vals.get((i, None, "length"))
+        if n is None:
+            return None
+        if t == "uint256[]":
+            out.append([vals.get((i, str(k), "uint256"), 0) for k in range(n)])
+        else:
+            cap = (max(blens) + 31) // 32 * 32
+            raw = vals.get((i, None, "bytes"), 0).to_bytes(cap, "big") if cap else b""
+            out.append(raw[:n])
+    return tuple(out)
+
+
 def explore(chk: Check, tier: str, want: str):
     """want = "C03" or "C04": which property's violations are reported (both are always evaluated)."""
     rnd = random.Random(48271 * chk.seed + (3 if want == "C03" else 4))
@@ -73,13 +109,22 @@ def explore(chk: Check, tier: str, want: str):
             if out.exception:
                 raise MachineryError(f"run_contract raised {out.exception}")
             runs.append((contract, metas, cli, out))
+        # dynamic parameters: the failure needs one of the configured length candidates and particular contents
+        for cfg in range(len(testgen.DYN_CONFIGS)) if tier != "quick" else [chk.seed % 5, (chk.seed + 2) % 5, 2]:
+            contract, metas, cli = testgen.gen_dynamic_contract(rnd, cfg)
+            out = run_contract(contract, cli=cli)
+            if out.exception:
+                raise MachineryError(f"run_contract raised {out.exception}")
+            runs.append((contract, metas, cli, out))
         # brute force on the reference machine
         cases, index = [], {}
         cid = 0
         for ri, (contract, metas, cli, out) in enumerate(runs):
             for meta in metas:
-                for tup in testgen.arg_tuples(meta, rnd, cap=(30 if meta.sig.startswith(("check_div", "check_sdiv", "check_mod", "check_smod")) else 45) if tier == "quick" else 100):
-                    cases.append(reftest.test_case(cid, contract, meta.sig, reftest.encode_static(meta.sig, tup)))
+                if want == "C04":
+                    break  # C04 judges the reported models only (replayed below); the grid brute force belongs to C03
+                for tup in getattr(meta, "dyn_tuples", None) or testgen.arg_tuples(meta, rnd, cap=(30 if meta.sig.startswith(("check_div", "check_sdiv", "check_mod", "check_smod")) else 45) if tier == "quick" else 100):
+                    cases.append(reftest.test_case(cid, contract, meta.sig, calldata_of(meta, tup)))
                     index[cid] = (ri, meta.sig, tup, "grid")
                     cid += 1
             # replay of every reported model
@@ -87,8 +132,11 @@ def explore(chk: Check, tier: str, want: str):
             for meta in metas:
                 r = res.get(meta.sig)
                 for mi, mdl in enumerate((r.models or []) if r else []):
-                    tup = model_args(mdl, meta.nargs)
-                    cases.append(reftest.test_case(cid, contract, meta.sig, reftest.encode_static(meta.sig, tup)))
+                    tup = model_args_dyn(mdl, meta) if getattr(meta, "dyn_tuples", None) else model_args(mdl, meta.nargs)
+                    if tup is None:
+                        chk.count("models_with_free_length_skipped")
+                        continue
+                    cases.append(reftest.test_case(cid, contract, meta.sig, calldata_of(meta, tup)))
                     index[cid] = (ri, meta.sig, tup, ("model", mi, mdl.is_valid))
                     cid += 1
         recs, tr = e1.run_spec(cases, work)
@@ -117,14 +165,14 @@ def explore(chk: Check, tier: str, want: str):
                 chk.count("models_replayed")
                 if valid:
                     chk.count("traces_validated_against_impl")
-                    chk.nontrivial(("model", contract_key(runs[ri][0]), sig, tup))
+                    chk.nontrivial(("model", contract_key(runs[ri][0]), sig, repr(tup)))
                     if not fails and want == "C04":
                         c = runs[ri][0]
                         chk.violation(
                             f"{contract_key(c)}:{sig}:valid-model-does-not-fail",
-                            f"{sig} [{' '.join(cli)}]: counterexample marked valid {[hex(x) for x in tup]} ends in {rec['kind']} "
+                            f"{sig} [{' '.join(cli)}]: counterexample marked valid {show(tup)} ends in {rec['kind']} "
                             f"0x{bytes(rec['data']).hex()[:80]} on the reference machine, not in an assertion failure",
-                            {"runtime": c.runtime().hex(), "sig": sig, "args": [hex(x) for x in tup], "cli": cli,
+                            {"runtime": c.runtime().hex(), "sig": sig, "args": show(tup), "cli": cli,
                              "reference": {"kind": rec["kind"], "data": bytes(rec["data"]).hex()}, "tree": meta_of(runs[ri][1], sig).tree},
                         )
                     if fails:
@@ -146,15 +194,15 @@ def explore(chk: Check, tier: str, want: str):
                     if reach is not None and clean:
                         chk.violation(
                             f"{contract_key(contract)}:{meta.sig}:pass-but-failing",
-                            f"{meta.sig} [{' '.join(cli)}] is reported PASS, but arguments {[hex(x) for x in reach]} make it fail on "
+                            f"{meta.sig} [{' '.join(cli)}] is reported PASS, but arguments {show(reach)} make it fail on "
                             f"the reference machine; test body: {meta.tree}",
                             {"runtime": contract.runtime().hex(), "creation": contract.creation().hex(), "sig": meta.sig,
-                             "args": [hex(x) for x in reach], "cli": cli, "tree": meta.tree, "halmos_stdout": out.stdout[-1500:]},
+                             "args": show(reach), "cli": cli, "tree": meta.tree, "halmos_stdout": out.stdout[-1500:]},
                         )
                     if reach is None and r.exitcode == 1:
                         chk.count("fail_without_grid_witness")
                 chk.sample({"test": meta.sig, "cli": cli, "body": meta.tree[:300], "halmos_exitcode": r.exitcode,
-                            "reference_failing_args": [hex(x) for x in reach] if reach else None,
+                            "reference_failing_args": show(reach) if reach else None,
                             "tuples_bruteforced": ntuples.get((ri, meta.sig), 0)})
         chk.cov["programs"] = sum(len(m) for _, m, _, _ in runs)
     finally:
